@@ -900,6 +900,7 @@ def pure_entry_loops(rep: Report):
     (so H - H_after = E is supported on the sub-diagonal and every removed entry is below the deflation threshold), and
     max_sub is the maximum of the sub-diagonal moduli seen (witness form: max_sub >= |H(r, r-1)| for every r)."""
     from ..rules import FunctionalInv
+    from ..sym import PathAbort
     TDm = "quatica/decomp/tridiagonalize.py::"
     QN = SC + "quaternion_schur_pure"
     zi = SInt.lift
@@ -1052,8 +1053,77 @@ def pure_entry_loops(rep: Report):
                   (QI, 2): at(defl(), "i", "range(1,n)")},
              QU: {(QU, 0): at(MainAU(), "k", "range(max_iter)"), (QU, 2): at(HavocAll({"H": arb("Hsw"), "Q_accum": arb("Qsw")}), "s", "range(0,n-1)"),
                   (QU, 3): at(defl(), "i", "range(i_start,n)")}}
+    # ---- experimental variant: the scan  while i > lo  zeroes at most one sub-diagonal entry, the one that passed the test, and moves hi below it
+    QE = SC + "quaternion_schur_experimental"
+    SMALLE = z3.Function("SMALLscan", z3.IntSort(), z3.BoolSort())
+
+    def formula_scan(fr, Hin, r):
+        tol = fr.vars["tol"]
+        w, x, y, z = comps(Hin(r, r - 1))
+        sv_sq = w * w + x * x + y * y + z * z
+        a_, b_ = comps(Hin(r - 1, r - 1)), comps(Hin(r, r))
+        ds_sq = a_[0] * a_[0] + a_[1] * a_[1] + a_[2] * a_[2] + a_[3] * a_[3] + b_[0] * b_[0] + b_[1] * b_[1] + b_[2] * b_[2] + b_[3] * b_[3]
+        return sv_sq <= (tol * tol) * smax(Fraction(1), ds_sq)
+
+    class MainAE(MainA):
+        modifies = ("H", "Q_accum", "diag", "hi")
+
+        def havoc(self, it, fr, k):
+            MainA.havoc(self, it, fr, k)
+            hi = SInt.var(cur().fresh_name("hi"))
+            cur().assume(sand(hi >= 0, hi <= fr.vars["n"] - 1))
+            fr.vars["hi"] = hi
+
+    class Scan(LoopRule):
+        """while i > lo: until the break nothing is written: H and hi are those at the head of the pass, lo < i <= hi"""
+        modifies = ("H", "hi", "i")
+
+        def establish(self, it, fr, start):
+            g = cur().ghost
+            g["scan_in"] = (snapshot(fr.vars["H"]), fr.vars["hi"])
+
+        def havoc(self, it, fr, k):
+            c = cur()
+            g = c.ghost
+            g["scan_kind"] = g.get("_havoc_kind")
+            i = SInt.var(c.fresh_name("i_scan"))
+            c.assume(sand(i >= fr.vars["lo"], i <= g["scan_in"][1]))
+            fr.vars["i"] = i
+            if g["scan_kind"] == "generic":
+                # the definition of the ghost predicate, instantiated at the row this step looks at
+                c.assume(SBool.mk(SMALLE(zi(i)) == formula_scan(fr, g["scan_in"][0], i).z))
+                g["scan_row"] = i
+
+        def preserve(self, it, fr, k):
+            c = cur()
+            Hin, hi_in = c.ghost["scan_in"]
+            r_, c_ = ix.fresh_indices(c, [fr.vars["n"], fr.vars["n"]], "sc")
+            c.require("inv.preserve", ix.scal_eq(fr.vars["H"].at(r_, c_), Hin(r_, c_)), "a step that does not deflate writes nothing", key="scan.inv.preserve.H_unchanged")
+
+    class AfterScan(LoopRule):
+        """reached after the scan (here used only to state what the scan did when it left through its break)"""
+        skip_body = True
+        modifies = ("max_sub",)
+
+        def establish(self, it, fr, start):
+            c = cur()
+            g = c.ghost
+            if g.get("scan_kind") == "generic":
+                Hin, hi_in = g["scan_in"]
+                row = g["scan_row"]
+                r_, c_ = ix.fresh_indices(c, [fr.vars["n"], fr.vars["n"]], "af")
+                same = ix.scal_eq(fr.vars["H"].at(r_, c_), Hin(r_, c_))
+                zeroed = sand(SBool.mk(zi(r_) == zi(row)), SBool.mk(zi(c_) == zi(row) - 1), ix.scal_eq(fr.vars["H"].at(r_, c_), ix.QScal(Fraction(0))), SBool.mk(SMALLE(zi(row))))
+                c.require("step", sor(same, zeroed), "the scan changed at most the sub-diagonal entry of the row that passed the deflation test, and set it to zero", key="scan.break.only_the_tested_entry_is_zeroed")
+            raise PathAbort("the rest of the pass is the business of the matrix-level case")
+
+        def havoc(self, it, fr, k):
+            pass
     FORMULA.update({QN: formula_pure, QI: formula_pure, QU: formula_unified})
-    EXTRA = {QN: dict(shift_mode="rayleigh"), QI: dict(shift_mode="rayleigh"), QU: dict(variant="aed", precompute_shifts=False, aed_factor="sym")}
+    cases[QE] = {(QE, 0): at(MainAE(), "k", "range(max_iter)"), (QE, 1): at(Scan(), None, "i>lo"),
+                 (QE, 3): at(HavocAll({"H": arb("Hsw"), "Q_accum": arb("Qsw")}), "s", "range(start,hi)"), (QE, 4): at(AfterScan(), "j", "range(lo+1,hi+1)")}
+    EXTRA = {QN: dict(shift_mode="rayleigh"), QI: dict(shift_mode="rayleigh"), QU: dict(variant="aed", precompute_shifts=False, aed_factor="sym"),
+             QE: dict(variant="aed_windowed", window="sym")}
 
     def post(I, ctx, outcome, val, aux):
         return []
@@ -1068,6 +1138,9 @@ def pure_entry_loops(rep: Report):
             if kw.get("aed_factor") == "sym":
                 kw["aed_factor"] = SReal.var("aed_factor")
                 ctx.assume(kw["aed_factor"] > 0, base=True)
+            if kw.get("window") == "sym":
+                kw["window"] = SInt.var("window")
+                ctx.assume(kw["window"] >= 1, base=True)
             return [A], dict(max_iter=K, tol=tol, return_diagnostics=True, **kw), (A, n, tol)
         run_case(rep, P, qn, "entry_loops", setup, post, lib=Library("idx"), contracts=contracts, loop_rules=rules, clauses=[], replay=replay_variants, timeout_s=60,
                  loop_end=True, max_paths=600)
